@@ -360,7 +360,7 @@ func runC03(c *vh.Ctx) {
 			o.offs, o.lexFail = c03CheckStream(j.src, o.run.Toks)
 		}
 		o.parse = c03Parse(j.src)
-		o.parseBad = c03CheckParse(j.src, o.parse)
+		o.parseBad = c03CheckParseAll(j.src, o.parse)
 	})
 
 	// ---- implementation-side oracle
